@@ -728,6 +728,53 @@ def rule_type_change_opens_frame(res, rid, m):
     return n
 
 
+OPEN_REASON_GETTERS = {PKT + "::getMessageType", PKT + "::getPayloadLength", PKT + "::getPayload"}
+
+
+def rule_open_reasons(res, rid, m):
+    """Messages of one type are aggregated: a frame is opened because the announced message type changes, because the message does not
+    fit, or because there is no frame — nothing else about a packet decides it.  Closed world over the packet attributes that appear in a
+    branch condition which governs a (may-)open: the message type and the payload length only."""
+    n = 0
+    bad = []
+    for f in m.methods:
+        if f.body is None:
+            continue
+        for c in f.calls():
+            g = m.fb.resolve_call(c)
+            if g is None or g.rec != ENC or not (g is m.opener or m.may_open(g)):
+                continue
+            n += 1
+            x = c
+            par = f.parent(x)
+            while par is not None:
+                cond = None
+                if par.get("k") == "if" and par.get("cond") is not x:
+                    cond = par.get("cond")
+                elif par.get("k") in ("while", "for", "do") and par.get("cond") is not x:
+                    cond = par.get("cond")
+                elif par.get("k") == "cond" and par.get("c") is not x:
+                    cond = par.get("c")
+                if isinstance(cond, dict):
+                    getters = {nm for nm in called_names(facts.expand(f, cond)) if nm.startswith(PKT + "::") and not nm.startswith(PKT + "::Packet")}
+                    extra = sorted(getters - OPEN_REASON_GETTERS)
+                    if extra:
+                        bad.append((f, c, cond, extra))
+                x, par = par, f.parent(par)
+    if not n:
+        raise Broken("no (may-)open call sites found")
+    if bad:
+        f, c, cond, extra = bad[0]
+        res.bad(rid, "open-reasons:%s" % f.name.split("::")[-1], cond.get("loc") or c.get("loc"),
+                "%s may open a frame (%s) under a condition that reads %s of the packet: packets of one message type that fit are no longer aggregated "
+                "into the current frame when that attribute differs — the frame count and the position of every later message change" %
+                (f.name, (callee_name(c) or "").split("::")[-1], ", ".join(e.split("::")[-1] + "()" for e in extra)))
+    else:
+        res.ok(rid, "open-reasons", m.putPacket.loc, "%d (may-)open call sites: the branch conditions that govern them read only the message type and the payload "
+               "length of the packet" % n)
+    return n
+
+
 def rule_fit_decided_on_fresh_frame(res, rid, m, placement=False):
     """C08-R4: the fit checker's positive answer is computed after a frame was opened on
     that path, and its test reads sizeof(MessageHeader) + payload length against the free bytes."""
@@ -1564,7 +1611,30 @@ def rule_one_length(res, rid, m):
     okorder = cfg.block_for(hw[0]) == cfg.block_for(c) and cfg.pos_of[hw[0]["id"]] < cfg.pos_of[c["id"]]
     res.check(okorder, rid, "length:header-before-copy", c.get("loc"), "message header is written before the payload slice", "payload slice is copied before its header is written")
     m.copy_len = L
-    return 4
+    # the total the loop works against and the bytes it copies are the same object's, read when they are needed: Packet::getPayloadLength()
+    # asks the payload object (no member of Packet that a later in-place change of the payload — getPayload() hands out a mutable
+    # reference — would leave stale)
+    gpl = m.fb.fn_opt(PKT + "::getPayloadLength")
+    if gpl is None or gpl.body is None:
+        raise Broken("Packet::getPayloadLength not found")
+    fields = {fl["qname"] for fl in m.fb.record(PKT)["fields"]}
+    stale = []
+    asks = False
+    for r in gpl.returns():
+        e = r.get("e")
+        if e is None or const_value(e) == 0:
+            continue
+        d, c = depends(gpl, e)
+        asks = asks or any(x.endswith("Payload::getLength") for x in c)
+        other = sorted(x for x in d if x in fields and not x.endswith("::payload"))
+        if other or not any(x.endswith("Payload::getLength") for x in c):
+            stale.append((r, other))
+    res.check(asks and not stale, rid, "length:source", (stale[0][0].get("loc") if stale else gpl.loc),
+              "Packet::getPayloadLength() asks the payload object for its length on every call",
+              "Packet::getPayloadLength() answers from %s instead of asking the payload object: after the payload was changed in place through "
+              "getPayload() the encoder announces and walks a length the payload does not have — bytes are dropped or bytes that belong to no "
+              "packet are copied" % (", ".join(x.split("::")[-1] for x in (stale[0][1] if stale else [])) or "something else"))
+    return 5
 
 
 def rule_header_tables_agree(res, rid, m):
